@@ -425,9 +425,12 @@ def check_aggregates(repo: Repo, rep: Report, w: World) -> None:
     rep.rule("AGG", "count_true/fold_or/fold_and/alldifferent over arrays and nestings; conv2d windows; four_neighbors geometry")
     mod = repo.mod(ARRAY)
     # aggregates over arrays
-    for dims in (1, 2):
-        shape = (3,) if dims == 1 else (2, 2)
-        n = 3 if dims == 1 else 4
+    # shapes: every axis length 0..3 (a shortcut keyed on `len(self)`, the row count or the size shows on one of them);
+    # the heading shapes (3,) and (2, 2) come first so that finding keys of older reports stay the same
+    shapes = [(3,), (2, 2), (0,), (1,), (2,)] + [(a, b) for a in range(4) for b in range(4) if (a, b) != (2, 2)]
+    for shape in shapes:
+        dims = len(shape)
+        n = shape[0] if dims == 1 else shape[0] * shape[1]
         A = w.array("b", "a", shape)
         names = {f"a{i}": "b" for i in range(n)}
         cases = [
@@ -440,6 +443,8 @@ def check_aggregates(repo: Repo, rep: Report, w: World) -> None:
             ("fold_and(array)", lambda: w.cw.call("fold_and", A), lambda v: all(v[f"a{i}"] for i in range(n))),
             ("array.fold_and()", lambda: w.cw.method(A, "fold_and")(), lambda v: all(v[f"a{i}"] for i in range(n))),
         ]
+        tag = "" if shape in ((3,), (2, 2)) else f" shape {shape}"
+        cases = [(lb + tag, th, mn) for lb, th, mn in cases]
         for label, thunk, meaning in cases:
             try:
                 kindr, res = _try(w, thunk)
@@ -460,9 +465,11 @@ def check_aggregates(repo: Repo, rep: Report, w: World) -> None:
                 rep.finding("AGG", CONS, label.split("(")[0], f"{label} {dims}-D", f"ill-formed tree: {ex}")
             except Undecided as ex:
                 rep.undecide("AGG", f"{label} {dims}-D: {ex}")
+        if n > 4:
+            continue
         I = w.array("i", "n", shape)
-        for label, thunk in (("alldifferent(array)", lambda: w.cw.call("alldifferent", I)),
-                             ("array.alldifferent()", lambda: w.cw.method(I, "alldifferent")())):
+        for label, thunk in (("alldifferent(array)" + tag, lambda: w.cw.call("alldifferent", I)),
+                             ("array.alldifferent()" + tag, lambda: w.cw.method(I, "alldifferent")())):
             try:
                 kindr, res = _try(w, thunk)
                 okay = kindr == "value"
